@@ -352,6 +352,7 @@ impl Task {
             old: self.state().to_string(),
             new: state.to_string(),
             via: "set",
+            thread: crate::verif::thread_tag(),
         });
         if state.is_completed() {
             self.set_end_time(utils::time::time_millis());
@@ -403,6 +404,7 @@ impl Task {
             old: self.state().to_string(),
             new: state.to_string(),
             via: "load",
+            thread: crate::verif::thread_tag(),
         });
         *self.state.write().unwrap() = state;
     }
